@@ -20,7 +20,9 @@ def apply(ctx, W):
     fn_into_verus(ctx, fw, "Type::is_array", ret="r", tags=U, ensures=["r == (self is Array)"])
 
     fn, u = fn_into_verus(ctx, fw, "Type::size", ret="r", tags=U, decreases="self", ensures=[
-        ("r == ty_size(*self, type_registry)", L)])
+        ("r == ty_size(*self, type_registry)", L),
+        # C10 consumes only *whether* a type is sized yet (deferral, cycles): a clause of its own
+        ("(r is Some) == (ty_size(*self, type_registry) is Some)", ("C10",), "sized-iff")])
     closure_annot(ctx, fw, u, fw.closure(fn, 1), params=["t: &ItemDefinition"], ret="r: Option<usize>",
                   ensures=["r == (match t.state { ItemState::Resolved(x) => Some(x.size), _ => None::<usize> })"])
     closure_annot(ctx, fw, u, fw.closure(fn, 2), params=["s: usize"], ret="r: Option<usize>",
